@@ -91,15 +91,19 @@ CLAIMED = {
         "technique": "mode-injected path-sensitive abstract interpretation (bit-vector domain for the flag words, "
                      "helper functions inlined in context) of every public API wrapper; who-may-write rule on the "
                      "mode bits; layer-agreement and effect-before-rejection typestate rules",
-        "text": "Decides six structural clauses: (1) the mode bits of PNC.flag/NC.flags are written only by the listed "
+        "text": "Decides seven structural clauses: (1) the mode bits of PNC.flag/NC.flags are written only by the listed "
                 "mode-changing functions; (2) the dispatcher changes a mode bit only after its driver call returned "
                 "NC_NOERR; (3) on every successful exit of the driver's mode-changing function the bit has the value "
                 "the dispatcher records (layers agree); (4) each of ~810 public APIs, explored with every mode in which "
                 "it is not permitted injected into the flag word (1626 API x mode instances), never reaches its driver "
                 "call, never returns NC_NOERR and can return the documented code; (5) the driver-level guards of "
                 "wait/sync/sync_numrecs/begin/end_indep reject before any communication or I/O; (6) no path returning "
-                "a mode error has already modified header state. The full product automaton over call histories and "
-                "the complete documented precedence order are not decided.",
+                "a mode error has already modified header state; (7) precedence: in sanity_check, "
+                "check_start_count_stride, sanity_check_put and sanity_check_get the tests producing the documented "
+                "error codes come in the documented order (NC_EPERM, NC_EINDEFINE, NC_ENOTVAR, NC_ECHAR, "
+                "NC_EINVALCOORDS, NC_EEDGE, NC_ESTRIDE ...), and each of the ~650 put/get wrappers runs id check, "
+                "sanity check, start/count check and the driver's data call in that order. The full product automaton "
+                "over call histories, and precedence among errors produced inside the driver, are not decided.",
         "note": "classic-format files; multi-variable APIs examined with nvars >= 1; MPI communication succeeds; "
                 "bit and error values are re-read from the macro table on every run.",
         "design_ref": "DESIGN.md section 3 / C14, rule R11",
